@@ -58,6 +58,14 @@ fn main() {
             let i: u64 = args[5].parse().unwrap();
             println!("{}", spaces[sp].describe(i));
         }
+        "front" if args.len() == 3 => {
+            // vh front <file>: the C07 front-end checks on one text
+            drive::install_panic_hook();
+            let ctx = drive::Ctx::new();
+            let text = std::fs::read_to_string(&args[2]).expect("read file");
+            let t0 = Instant::now();
+            println!("{:?} in {:?}", drive::front_total(&ctx, &text), t0.elapsed());
+        }
         "solo" if args.len() == 3 => props::c14::solo_main(args[2].parse().unwrap()),
         "replay" if args.len() == 4 => {
             let code = replay(&args[2], &args[3]);
